@@ -41,6 +41,9 @@ struct TADomain {
     if (left == 0) { if (requireLeafRule && pick.empty()) return; for (unsigned fm = allowNoFinal ? 0 : 1; fm < (1u << n); fm++) { Item it; it.nr = (uint8_t)pick.size(); for (size_t i = 0; i < pick.size(); i++) it.r[i] = (uint16_t)pick[i]; it.fin = (uint8_t)fm; items.push_back(it); } return; }
     for (size_t i = from; i + left <= U.size(); i++) { if (requireLeafRule && pick.empty() && i >= firstNonNullary) break; pick.push_back((int)i); gen(i + 1, left - 1, pick); pick.pop_back(); }
   }
+  // keep only automata without useless states and with a non-empty language (inclusion trims its operands first,
+  // so every pair is language-equivalent to a pair of these; used to reach more states/rules)
+  void keepTrimmedOnly() { std::vector<Item> k; for (size_t i = 0; i < items.size(); i++) { ref::TA A = get(i); if (A.finals.empty() || ref::emptyLang(A)) continue; auto u = ref::useful(A); bool ok = true; for (auto q : A.states()) if (!u.count(q)) ok = false; for (auto& r : A.rules) if (!ref::usefulRule(r, u)) ok = false; if (ok) k.push_back(items[i]); } items.swap(k); }
   size_t size() const { return items.size(); }
   ref::TA get(size_t i) const { ref::TA A; const Item& it = items[i]; for (int k = 0; k < it.nr; k++) A.rules.insert(U[it.r[k]]); for (int q = 0; q < n; q++) if (it.fin >> q & 1) A.finals.insert(q); return A; }
   int numRules(size_t i) const { return items[i].nr; }
